@@ -11,7 +11,7 @@ def reviewed_table():
     p = os.path.join(VERIF, "spec", "reviewed_sites.json")
     if not os.path.exists(p):
         return {}
-    return {e["key"]: e["reason"] for e in json.load(open(p))}
+    return {e["key"]: e for e in json.load(open(p))}
 
 
 def short(fn):
